@@ -30,13 +30,14 @@ MC = {
     "C05": [("MC_HostFs", "MC_HostFs_quick.cfg", "MC_HostFs_thorough.cfg"), ("MC_Passthrough", "MC_Pt_mirror_quick.cfg", "MC_Pt_mirror_thorough.cfg"),
             ("MC_Passthrough", None, "MC_Pt_mirror_ifh.cfg"), ("MC_Passthrough", None, "MC_Pt_mirror_noopen.cfg")],
     "C06": [("MC_Passthrough", "MC_Pt_contained_quick.cfg", "MC_Pt_contained_thorough.cfg")],
-    "C18": [("MC_Passthrough", "MC_Pt_sealed_quick.cfg", "MC_Pt_sealed_thorough.cfg"), ("MC_Passthrough", "MC_Pt_sealed_noopen_quick.cfg", "MC_Pt_sealed_noopen.cfg")],
+    "C18": [("MC_Passthrough", "MC_Pt_sealed_quick.cfg", "MC_Pt_sealed_thorough.cfg"), ("MC_Passthrough", "MC_Pt_sealed_noopen_quick.cfg", "MC_Pt_sealed_noopen.cfg"),
+            ("MC_Passthrough", "MC_Pt_sealed_wb_quick.cfg", "MC_Pt_sealed_wb_quick.cfg")],
 }
 # anti-vacuity: the same I-level model with the code AS FOUND switched back on (constant AsFound) must violate the
 # invariant again; exit 2 otherwise. These runs are not evidence: their states are not counted.
-MC_ASFOUND = {"C05": [("MC_Pt_asfound_c05.cfg", "MirrorOK")],
+MC_ASFOUND = {"C05": [("MC_Pt_asfound_c05.cfg", "MirrorOK"), ("MC_Pt_asfound_c05g.cfg", "MirrorOK")],
               "C06": [("MC_Pt_asfound_c06.cfg", "ContainedOK")],
-              "C18": [("MC_Pt_asfound_c18.cfg", "Sealed"), ("MC_Pt_asfound_c18fd.cfg", "HandlesOK"), ("MC_Pt_asfound_c18r.cfg", "SwitchesOK")]}
+              "C18": [("MC_Pt_asfound_c18.cfg", "Sealed"), ("MC_Pt_asfound_c18fd.cfg", "HandlesOK"), ("MC_Pt_asfound_c18r.cfg", "SwitchesOK"), ("MC_Pt_asfound_c18w.cfg", "Sealed")]}
 
 
 def run_mc(ctx, pid):
@@ -80,7 +81,7 @@ def run_mc(ctx, pid):
     ctx.extra["action_coverage"] = {"%s/%s" % (k[0], "ok" if k[1] else "fail"): v for k, v in sorted(acts.items())}
     for cfg, inv in MC_ASFOUND.get(pid, []):
         keep = (ctx.states, ctx.transitions, list(ctx.mc_runs))
-        r = C.tlc_mc(ctx, "MC_Passthrough", cfg=cfg, workers=8, timeout=600, cont=True, coverage=False, expect_violation=True)
+        r = C.tlc_mc(ctx, "MC_Passthrough", cfg=cfg, workers=8, timeout=600, cont=False, coverage=False, expect_violation=True)   # stops at the first violation
         ctx.states, ctx.transitions, ctx.mc_runs = keep
         if inv not in r["violated"]:
             raise C.ToolError("anti-vacuity: with the as-found code switched on TLC must violate %s in %s (got %s)" % (inv, cfg, r["violated"]))
